@@ -346,7 +346,11 @@ class Impl:
         self.B[r] = self.BluePrint()
 
     def op_BInsert(self, r, pos, f, args, dur, name):
-        self.B[r].insertSegment(pos, pyfn(f), tuple(args), dur=dur, name=name)
+        if pos == 2 and dur is not None:
+            # the deprecated spelling of the same argument (insertSegment(..., durs=...)): same meaning
+            self.B[r].insertSegment(pos, pyfn(f), tuple(args), durs=dur, name=name)
+        else:
+            self.B[r].insertSegment(pos, pyfn(f), tuple(args), dur=dur, name=name)
 
     def op_BRemove(self, r, n):
         self.B[r].removeSegment(n)
